@@ -308,11 +308,21 @@ def run(ctx):
     msg = 'expected two recursive calls (first half, second half)'
     if ok:
         (b1, t1), (b2, t2) = rec
-        g1 = [(show(g, maxdepth=4), opw.truth(k)) for g, k, sw in step.guard_terms(b1)]
-        depth_ok = any('depth' in s and 'linear_recursion_depth' in s and '<' in s and v is True for s, v in g1)
-        d1 = show(step.op_term(t1['args'][4], (b1, None)), maxdepth=3)
-        d2 = show(step.op_term(t2['args'][4], (b2, None)), maxdepth=3)
-        inc_ok = d1 == d2 == '(depth + 1)'
+        # the depth counter is the usize parameter of the recursive function: bounded by self.linear_recursion_depth, +1 per level
+        dpar = [i for i in range(2, step.arg_count + 1) if step.local_ty(i) == 'usize']
+        depth_ok = inc_ok = False
+        if len(dpar) == 1:
+            for g, k, sw in step.guard_terms(b1):
+                bd = util.as_bound(g, opw.truth(k))
+                if bd is not None and bd[0] == 'lt' and util.is_param(bd[1], dpar[0]) and util.is_self_field(bd[2], 'linear_recursion_depth'):
+                    depth_ok = True
+
+            def plus_one(t):
+                t = strip(t)
+                while isinstance(t, tuple) and t[0] == 'fld' and t[2] == '0' and isinstance(strip(t[1]), tuple) and strip(t[1])[0] == 'bin':
+                    t = strip(t[1])
+                return isinstance(t, tuple) and t[0] == 'bin' and str(t[1]).startswith('Add') and util.is_param(t[2], dpar[0]) and util.const_val(t[3]) == 1
+            inc_ok = plus_one(step.op_term(t1['args'][dpar[0] - 1], (b1, None))) and plus_one(step.op_term(t2['args'][dpar[0] - 1], (b2, None)))
         t2s = step.op_term(t2['args'][1], (b2, None))
         chain_ok = mir.contains(t2s, lambda x: x[0] == 'call' and cname(x[1]) == 'slice::last') and \
             mir.contains(t2s, lambda x: x[0] == 'call' and x[1] == step.path and strip(x[5]) == strip(step.op_term(t1['args'][3], (b1, None))))
